@@ -110,6 +110,42 @@ CHECKS["C02"] = dict(
     technique="Lean 4 proof of the column-resolution layer + differential correspondence of complete column path sets on Lean-rendered SQL",
 )
 
+CHECKS["C11"] = dict(
+    category="proof",
+    text="Lean theorems that every place where the analysed code iterates a hash-ordered set is order free on the model, for ALL inputs: "
+         "the DROP loop gives the same graph value for every order of the dropped tables (dropStep_perm_eq); read x write edge insertion and "
+         "tag setting give the same node set, edge set, tags and edge types (rwStep_product_perm, setTags_perm); the source/target/"
+         "intermediate sets are functions of that order-free content and the sorted public lists are functions of the sets "
+         "(roles_of_canon, sorted_view_order_irrelevant); an unqualified or qualified non-star column gets the same source columns with the "
+         "same sorted, duplicate-free parent candidates for every iteration order of the relations in scope (insertParent_comm, "
+         "parent_candidates_sorted, toSourceColumns_parents_order_irrelevant); one whole step of the statement fold is independent of the "
+         "orders of holder.drop / read / write / rename when the statement has at most one rename pair (result_order_independent_partial); "
+         "witnesses that the two remaining sites ARE order sensitive (star_order_sensitive_witness = D16, dev_D10). The runner's lazy "
+         "evaluation is a state machine (Model/Lazy.lean): for every sequence of accessor calls the answers equal those of fresh runners, "
+         "also when evaluation raises; `_eval` runs at most once; with a provider whose answers change over time all answers still come "
+         "from the first evaluation (accessors_pure, eval_at_most_once, accessors_stable_under_changing_provider, accessor_order_irrelevant). "
+         "Tie to the code: subprocess sweep - corpus (every statically evaluable LineageRunner input of the test-suite with its dialects, "
+         "both analysers, metadata, environment; TPC-DS), generated statements (half star-heavy), generated 2-4 statement scripts (half with "
+         "a dict provider, DROP/RENAME mixed in) and targeted shapes per site are evaluated by the REAL LineageRunner in fresh processes "
+         "under 4 (quick) / 32 (thorough) PYTHONHASHSEED values and the canonical dumps of ALL public accessors compared byte for byte; "
+         "accessor-call permutations and repetitions on fresh and on the same runner, incl. a provider that changes between evaluations; "
+         "for generated inputs every seed's answer must be one of the model's outcomes over its iteration-order parameter",
+    design_ref="DESIGN.md §5 C11, §6 D10/D16",
+    note=TB + ". partial: the composition of the per-step theorem over a whole history (canon-congruence of compose/relabel and the "
+         "statement that Walk.analyze is revStar-independent outside the D16 class) is not proved - the sweep covers it on the "
+         "implementation. Modelled, not verified: CPython set iteration order as a function of PYTHONHASHSEED (an arbitrary permutation in the "
+         "model). Not compared: the element ORDER of the list to_cytoscape returns and its positional edge ids e<i> (they follow networkx "
+         "subgraph-view iteration = hash order for almost every multi-table statement; the export is compared as the set of its nodes with "
+         "all attributes and its edges; the number of inputs affected is in the evidence), and the order generated subquery_<hash> names "
+         "induce in sorted lists (the property exempts those names). Repairs delivered as patches, to be committed in /repo: D16 (FROM-clause "
+         "order instead of set order for unqualified columns and `*`), D26 (total order of get_column_lineage()), D28 (non-validating "
+         "analyser: WRITE tag of subqueries) - until they are applied the check exits 1 on /repo with those three replays. Known findings "
+         "D10 (several RENAME pairs), D27 (column-level export names a subquery after an arbitrary one of its aliases).",
+    technique="Lean 4 proof (permutation lemmas per set-iteration site, state machine for lazy evaluation) + differential correspondence: "
+              "implementation vs implementation across hash seeds in fresh subprocesses and across accessor-call sequences, implementation "
+              "vs the model's outcome set",
+)
+
 NOT_YET = "machinery not built yet (build phase in progress, see DESIGN.md §9)"
 
 
